@@ -923,6 +923,9 @@ def w1_walk(ctx):
         if isinstance(x, ast.Compare) and len(x.ops) == 1 and isinstance(x.ops[0], (ast.Lt, ast.LtE)) and isinstance(x.left, ast.Name) \
                 and H.increments_in(wl, x.left.id):
             return H.name("under_cap")
+        if isinstance(x, ast.Compare) and len(x.ops) == 1 and isinstance(x.ops[0], (ast.Gt, ast.GtE)) and isinstance(x.comparators[0], ast.Name) \
+                and H.increments_in(wl, x.comparators[0].id):
+            return H.name("under_cap")          # `cap > counter`
         return None
     ab = H.Abstractor(watom)
     code = ab.boolean(wl.test)
